@@ -19,6 +19,9 @@ mod cv;
 mod ops;
 #[path = "c06_ops/attack.rs"]
 mod attack;
+/// entries + admissible inputs for C09 (structure independence); only self-checked here
+#[path = "c06_ops/structure.rs"]
+mod structure;
 
 use std::collections::BTreeMap;
 
@@ -87,6 +90,12 @@ impl<V: Cv> Job for Task<V> {
         opts.real_k_max = atk.real_k_max;
         if !self.driver_ars {
             opts.ars = None;
+        }
+        // the driver's free-instance seed-move attacks: units are single inputs here, so the
+        // "first seed_inputs inputs of an operation" rule is applied on the entry's input index
+        opts.seed_cells = if thorough { 48 } else { 16 };
+        if only_input.map(|i| i >= opts.seed_inputs).unwrap_or(false) {
+            opts.seed_cells = 0;
         }
         let inputs: Vec<Vec<Val>> = match only_input {
             Some(i) => self.inputs.iter().skip(i).take(1).cloned().collect(),
@@ -713,6 +722,22 @@ fn main() {
             })
             .collect()
     };
+    if ctx.extra.contains_key("list-structure") {
+        // builds the C09 catalogues (their admissibility assertions run) and prints them
+        for th in [false, true] {
+            let a = structure::catalogue_for_structure_jubjub(th);
+            let b = structure::catalogue_for_structure_secp256k1(th);
+            let c = structure::catalogue_for_structure_bls12_381(th);
+            println!("thorough={th}: jubjub {} entries, secp256k1 {}, bls12_381 {}", a.len(), b.len(), c.len());
+            for (e, ins) in &a {
+                println!("  {:60} inputs={}", e.name(), ins.len());
+            }
+            for (e, ins) in &b {
+                println!("  {:60} inputs={}", e.name(), ins.len());
+            }
+        }
+        std::process::exit(0);
+    }
     if ctx.extra.contains_key("list") {
         for (j, k) in jobs.iter().zip(&ks) {
             println!("{:60} k={:2} inputs={}", j.name(), k, j.n_inputs());
